@@ -15,6 +15,7 @@ pub mod modsys;
 pub mod tweener;
 pub mod spatial;
 pub mod units;
+pub mod wav;
 
 pub fn suite_salt(name: &str) -> u64 {
 	name.bytes()
@@ -35,6 +36,7 @@ pub fn gen(suite: &str, rng: &mut Rng, n: usize, thorough: bool, stats: &mut Sta
 		"clocksys" => clocksys::gen(rng, n, thorough, stats),
 		"clocktear" => clocktear::gen(rng, n, thorough, stats),
 		"spatial" => spatial::gen(rng, n, thorough, stats),
+		"wav" => wav::gen(rng, n, thorough, stats),
 		_ => panic!("unknown suite {}", suite),
 	}
 }
@@ -53,6 +55,7 @@ pub fn run(suite: &str, ops: &[String]) -> Vec<String> {
 		"clocksys" => clocksys::run(ops),
 		"clocktear" => clocktear::run(ops),
 		"spatial" => spatial::run(ops),
+		"wav" => wav::run(ops),
 		_ => panic!("unknown suite {}", suite),
 	}
 }
